@@ -122,8 +122,13 @@ class Evaluator(object):
                 dom = z3.Store(dom, kk.e, z3.BoolVal(True))
                 mp = z3.Store(mp, kk.e, self.coerce(v, t.v, "dict literal value", st).e)
             return SV(t.mk(cx, dom, mp), t)
-        if isinstance(t, TStr) and isinstance(sv.t, TTok):
-            pass
+        if isinstance(sv.t, TObj) and not isinstance(t, (TNone,)):
+            # dynamic typing: an opaque object used at a concrete type (cast is an uninterpreted function)
+            f = cx.func("obj_as_" + mangle(t.name), cx.Obj, t.sort(cx))
+            return SV(f(sv.e), t)
+        if isinstance(t, TObj) and not isinstance(sv.t, TNone):
+            f = cx.func("obj_of_" + mangle(sv.t.name), sv.t.sort(cx), cx.Obj)
+            return SV(f(sv.e), t)
         raise Outside("cannot coerce %s (%s) to declared type %s" % (what, sv.t, t))
 
     # ---------------------------------------------------------------- heap
